@@ -124,6 +124,9 @@ def replay(ctx, rp):
     if str(rp.get("engine") or (rp.get("first_difference") or {}).get("engine") or "").startswith("realloop"):
         from engines import realloop   # second engine of this property; check.py hands every replay to the first
         return realloop.replay(ctx, rp)
+    if str(rp.get("engine") or (rp.get("first_difference") or {}).get("engine") or "").startswith("wire"):
+        from engines import wire   # second engine of C12 (the tablet-mode switch reader)
+        return wire.replay(ctx, rp)
     inp = rp.get("input") or (rp.get("first_difference") or {}).get("input") or {}
     if inp.get("layout") is None or not inp.get("script"):
         print("replay names no concrete input (kind=%s): %s" % (rp.get("kind"), rp.get("broken")))
